@@ -206,8 +206,69 @@ Definition b_disc (tbl : mat) : list nat -> list nat -> mat := mk nat (k_disc tb
 (* LinearModel used inside a ModelKernel: x |-> W x + b *)
 Definition linmap (W : mat) (b : vec) (x : vec) : vec := zipw add (map (fun r => dot r x) W) b.
 
+
+Fixpoint ofnat (n : nat) : A := match n with 0 => zero | S m => add one (ofnat m) end.
+
+(* PointSetKernel: mean of the base kernel over all pairs of points of the two sets *)
+Definition k_pset (k : vec -> vec -> A) : list vec -> list vec -> A :=
+  fun P Q => div (lsum (map (fun x => lsum (map (fun z => k x z) Q)) P)) (mul (ofnat (length P)) (ofnat (length Q))).
+
+(* ---------------- coded derivatives (per pair of points; the batch routines sum them with the coefficients) ----------------
+   g_* : gradient of k(x,z) with respect to x as the weightedInputDerivative routines compute it,
+   p_* : derivative with respect to the kernel parameter as weightedParameterDerivative computes it. *)
+Variable isz : A -> bool.      (* test against zero (safe_div) *)
+(* remora safe_div(a,b,0) *)
+Definition safe_div (a b : A) : A := if isz b then zero else div a b.
+Definition vscale (a : A) (v : vec) : vec := map (mul a) v.
+Definition vadd (u v : vec) : vec := zipw add u v.
+Definition vsum (n : nat) (vs : list vec) : vec := fold_right vadd (repeat zero n) vs.
+
+Definition g_lin : vec -> vec -> vec := fun x z => z.
+(* degree 1: prod(coefficients, X2); else degree * prod(coefficients * safe_div(base^d, base, 0), X2) *)
+Definition g_poly (d : nat) (c : A) : vec -> vec -> vec := fun x z =>
+  if d =? 1 then z else vscale (mul (ofnat d) (safe_div (pow (add (dot x z) c) d) (add (dot x z) c))) z.
+(* MonomialKernel has no degree-1 short cut *)
+Definition g_mono (d : nat) : vec -> vec -> vec := fun x z =>
+  vscale (mul (ofnat d) (safe_div (pow (dot x z) d) (dot x z))) z.
+(* 2 gamma (sum_j W_ij z_j - (sum_j W_ij) x_i) with W = coefficients * expNorm, written per pair *)
+Definition g_gauss (g : A) : vec -> vec -> vec := fun x z =>
+  vscale (mul (mul two g) (k_gauss g x z)) (zipw sub z x).
+(* -2 * coeff * kxy * gammas * (x - z) *)
+Definition g_ard (gs : vec) : vec -> vec -> vec := fun x z =>
+  vscale (mul (opp two) (k_ard gs x z)) (zipw mul gs (zipw sub x z)).
+Definition g_scaled (f : A) (g : vec -> vec -> vec) : vec -> vec -> vec := fun x z => vscale f (g x z).
+(* sum_k (w_k / weightsum) * grad_k *)
+Definition g_wsum (n : nat) (wgs : list (A * (vec -> vec -> vec))) : vec -> vec -> vec := fun x z =>
+  vsum n (map (fun wg => vscale (div (fst wg) (lsum (map fst wgs))) (snd wg x z)) wgs).
+(* SubrangeKernelWrapper: the gradient of the inner kernel written into columns [a,b) of a zero row *)
+Definition g_sub (n a b : nat) (g : vec -> vec -> vec) : vec -> vec -> vec := fun x z =>
+  repeat zero a ++ g (subvec a b x) (subvec a b z) ++ repeat zero (n - b).
+
+(* weightedInputDerivative: row i = sum_j c_ij * grad(x_i, z_j) *)
+Definition wid (n : nat) (g : vec -> vec -> vec) (C : mat) (X1 X2 : list vec) : mat :=
+  map (fun xc => vsum n (map (fun cz => vscale (fst cz) (g (fst xc) (snd cz))) (combine (snd xc) X2))) (combine X1 C).
+
+(* offset parameter of PolynomialKernel (degree not a parameter, constrained encoding) *)
+Definition p_poly (d : nat) (c : A) : vec -> vec -> A := fun x z =>
+  if d =? 1 then one else mul (ofnat d) (safe_div (pow (add (dot x z) c) d) (add (dot x z) c)).
+(* gamma of GaussianRbfKernel (constrained encoding): - expNorm * norm2 *)
+Definition p_gauss (g : A) : vec -> vec -> A := fun x z => opp (mul (k_gauss g x z) (distsq x z)).
+(* weightedParameterDerivative of a one-parameter kernel: sum_ij c_ij * dk(x_i,z_j) *)
+Definition wpd (p : vec -> vec -> A) (C : mat) (X1 X2 : list vec) : A :=
+  lsum (map (fun xc => lsum (map (fun cz => mul (fst cz) (p (fst xc) (snd cz))) (combine (snd xc) X2))) (combine X1 C)).
+(* the weighted sum of kernel values that the derivatives differentiate *)
+Definition wsumk {X : Type} (k : X -> X -> A) (C : mat) (X1 X2 : list X) : A :=
+  lsum (map (fun xc => lsum (map (fun cz => mul (fst cz) (k (fst xc) (snd cz))) (combine (snd xc) X2))) (combine X1 C)).
+
 End Model.
 
 (* the dataset of C03 is a list of batches; its element list is C03Model.elems *)
 Definition gram_of_data {A X : Type} (k : X -> X -> A) (d : @data X) : list (list A) :=
   mk A X k (elems d) (elems d).
+
+(* ---------------- the exact instantiation handed to the extracted driver: canonical rationals ---------------- *)
+From Coq Require Import QArith Qcanon.
+Definition qc_make (num : Z) (den : positive) : Qc := Q2Qc (Qmake num den).
+Definition qc_num (x : Qc) : Z := Qnum (this x).
+Definition qc_den (x : Qc) : positive := Qden (this x).
+Definition qc_isz (x : Qc) : bool := if Qc_eq_dec x (Q2Qc 0) then true else false.
